@@ -7,7 +7,7 @@ from props import pipefmt, pipecheck
 PID = "C04"
 MANIFEST_ENTRY = {
  "level_claimed": {"category": "proof", "text": "Theorems in coq/Properties/C04.v over the transliterated parser/builder models: UNBOUNDED, for every token list, whenever parse accepts the returned node links form a tree - every child exists and names its parent, nothing is shared, everything unreachable is a dropped separator (C04_accepted_parse_is_tree, C04_no_shared_child; by the depth-first-search invariant of the validate_tree pass that parse() runs on its own result); also UNBOUNDED, the token accounting: the nodes' (definition, class, token index) labels are, token by token and in token order, an optional implicit-list node followed by nothing (only for Drop-defined tokens - closing brackets, whitespace, annotations - and droppable separators) or exactly one node with the token's index, class and table definition, so token indices increase strictly along the node array, every token has at most one node and every token that must have one has it (C04_tokens_accounted, C04_accounted_in_order; invariant of the main loop: a step never changes the label of an existing node), and that node is in the validated tree (C04_every_token_in_the_tree); bounded: a boolean checker for 'proper binary tree + in-order walk visits every significant token once in source order + every value/operator node is attributed an instruction' with its Prop reading proved (C04_checker_sound), and the checker holds for every accepted token sequence of length <= 3 over all token types and of length 4 over the representative alphabet (vm_compute enumeration, bounds in the names); parse validates its result as a tree (validate_tree), so malformed node graphs are rejected rather than built. What stays bounded is the ORDER in which the tree is walked (in-order walk = source order) and the instruction attribution: C04_full_statement is stated, not proved. Tie to /repo: parser tables regenerated into Gen/Defs.v; model and implementation compared node-for-node / instruction-for-instruction on all short sequences, soups, generated and mutated programs; the same three tests are evaluated natively on the real ParseResult nodes and BuildData::instruction_metadata. UNBOUNDED on the operator fragment (C04_in_order_operator_expressions, from C02_full's token-ordered-tree invariant): whenever the C02 reference parser is defined on a token list -- every operator expression of any length and bracket depth -- parse accepts, the in-order walk of the tree visits the nodes 0,1,2,... and the checker clause tokens_in_order_b holds (token indices strictly increasing along the walk, every non-trivia token met).", "design_ref": "DESIGN.md section 8 C04"},
- "level_note": "Attribution clause, proved unbounded (round 6, Proofs/C04/Attribution*.v, ParserLeft.v): for every proper tree the tree compiler attributes an instruction to every node other than a Group, an ElseJump and a same-kind nested List/CommaList (C04_every_node_attributed_all_trees: induction over the compiler with the pending-bodies invariant - every owed node is attributed already, lies in a pending body or in a registered arm; every pending body is run; Ok means the fuel sufficed), carried to the worklist model of build() by compile_agrees_full (C04_every_node_attributed_builder) and to the checker clause covered_tree_b by C04_inorder_is_the_tree (the in-order walk visits exactly the nodes of the tree); for EVERY token list the parser accepts (C04_attribution_parsed) it holds with class C05-K2 (a conditional directly as left operand of && / ||, decidable on the tree, not produced by any accepted list up to length 4 over the reduced alphabet) as the only exclusion; the second necessary condition - no left child under a node whose left child build() ignores - is an unbounded invariant of the parser loop (C04_parser_links_no_ignored_child); both conditions are shown necessary by computed witnesses on hand-built node arrays (C04_attribution_K2_refuted, C04_attribution_ignored_child_refuted); the statement without exclusion stays a Definition (C04_attribution_full_statement). Trusted: Coq kernel (vm_compute), translator, extraction, harness. Structural nodes exempt from attribution (resolved toward the code): Group, ElseJump, a list node nested directly in a list of the same kind; dropped separator nodes may stay in the node array unreachable from the root. No axioms.",
+ "level_note": "Attribution clause, proved unbounded (round 6, Proofs/C04/Attribution*.v, ParserLeft.v): for every proper tree the tree compiler attributes an instruction to every node other than a Group, an ElseJump and a same-kind nested List/CommaList (C04_every_node_attributed_all_trees: induction over the compiler with the pending-bodies invariant - every owed node is attributed already, lies in a pending body or in a registered arm; every pending body is run; Ok means the fuel sufficed), carried to the worklist model of build() by compile_agrees_full (C04_every_node_attributed_builder) and to the checker clause covered_tree_b by C04_inorder_is_the_tree (the in-order walk visits exactly the nodes of the tree); for EVERY token list the parser accepts (C04_attribution_parsed) it holds with class C05-K2 (a conditional directly as left operand of && / ||, decidable on the tree, not produced by any accepted list up to length 4 over the reduced alphabet) as the only exclusion; the second necessary condition - no left child under a node whose left child build() ignores - is an unbounded invariant of the parser loop (C04_parser_links_no_ignored_child); both conditions are shown necessary by computed witnesses on hand-built node arrays (C04_attribution_K2_refuted, C04_attribution_ignored_child_refuted); on the whole operator fragment the exclusion is discharged (C04_attribution_full_on_operator_expressions, via C05_operator_expressions_not_K2); the statement without exclusion for every token list stays a Definition (C04_attribution_full_statement) and is proved equivalent to the open parser invariant C05_parser_links_no_K2_statement (C04_attribution_full_from_no_K2). Trusted: Coq kernel (vm_compute), translator, extraction, harness. Structural nodes exempt from attribution (resolved toward the code): Group, ElseJump, a list node nested directly in a list of the same kind; dropped separator nodes may stay in the node array unreachable from the root. No axioms.",
  "technique": "Coq proof (induction over the parser loop and the tree compiler, checker soundness; vm_compute finite enumeration for the walk order outside the operator fragment) + differential correspondence + native evaluation of the statement"}
 
 TRUSTED = vplib.BASE_TRUSTED + ["tools/sync/defs.py (parser tables)", "tools/props/pipefmt.py: native C04 checker (Python)"]
